@@ -14,6 +14,7 @@ mask.forEachItem([&](ComponentId id) {                     // ascending componen
     offset = getter.offset.add(chunk_capacity_ * info.size);
 });
 chunk_size_ = offset.alignAs(chunk_align_);
+if (chunk_size_ == 0) chunk_size_ = chunk_align_;          // only zero-sized components: one alignment unit
 ...
 chunk = memory_manager_->allocate(chunk_size_, chunk_align_);              // allocateChunk
 ptr   = chunks_[index / chunk_capacity_] + info.offset + info.size * (index % chunk_capacity_)
@@ -68,6 +69,11 @@ def step (rule : Rule) (cap : Nat) (b : Build) (c : Comp) : Build :=
 
 def build (rule : Rule) (cap : Nat) (cs : List Comp) : Build := cs.foldl (step rule cap) Build.init
 
+/-- `chunk_size_` from the running end offset: rounded up to the chunk alignment; a chunk of zero-sized
+components only still gets one alignment unit, so that it has an address -/
+def roundChunk (e chunkAlign : Nat) : Nat :=
+  if alignUp e chunkAlign = 0 then chunkAlign else alignUp e chunkAlign
+
 /-- the finished storage description -/
 structure Layout where
   cap : Nat
@@ -81,7 +87,7 @@ deriving Repr
 def layout (rule : Rule) (cap : Nat) (cs : List Comp) : Layout :=
   let b := build rule cap cs
   { cap := cap, getters := b.getters, chunkAlign := b.chunkAlign,
-    chunkSize := if cs.isEmpty then 0 else alignUp b.offset b.chunkAlign }
+    chunkSize := if cs.isEmpty then 0 else roundChunk b.offset b.chunkAlign }
 
 /-! ## Recursive reading of the same fold (what the theorems are stated about) -/
 
@@ -114,7 +120,7 @@ def firstAlign (cap : Nat) : Nat → Nat → List Comp → Nat
 
 /-- size of a chunk for a given chunk alignment -/
 def chunkSizeOf (cap : Nat) (cs : List Comp) (chunkAlign : Nat) : Nat :=
-  alignUp (endOf cap 0 cs) chunkAlign
+  roundChunk (endOf cap 0 cs) chunkAlign
 
 /-- offset of slot `k` of column `i` relative to the chunk base (`info.offset + info.size * k`) -/
 def rel (cap : Nat) (cs : List Comp) (i k : Nat) : Nat :=
